@@ -4,6 +4,7 @@ import (
 	"fmt"
 	"go/types"
 	"math/big"
+	"regexp"
 	"sort"
 	"strings"
 )
@@ -166,8 +167,12 @@ func isTime(t types.Type) bool {
 	return false
 }
 
+var byteRe = regexp.MustCompile(`\bbyte\b`)
+var runeRe = regexp.MustCompile(`\brune\b`)
+
 func typeKey(t types.Type) string {
 	s := types.TypeString(t, func(p *types.Package) string { return p.Path() })
+	s = runeRe.ReplaceAllString(byteRe.ReplaceAllString(s, "uint8"), "int32")
 	r := strings.NewReplacer("github.com/alpacahq/marketstore/v4/", "", " ", "_", "*", "P", "[", "L", "]", "R", "/", ".", "{", "_", "}", "_", ";", "_", "(", "_", ")", "_", ",", "_", "\"", "_", "|", "_")
 	return r.Replace(s)
 }
@@ -241,14 +246,76 @@ func (st *sortTable) structOf(t types.Type) *structInfo {
 	return si
 }
 
+// typeID: dynamic-type identifier of a concrete type; id mod 32 is the reflect-style kind code of its underlying type.
 func (st *sortTable) typeID(t types.Type) int {
 	k := typeKey(t)
 	if id, ok := st.typeIDs[k]; ok {
 		return id
 	}
-	id := len(st.typeIDs) + 1
+	id := (len(st.typeIDs)+1)*32 + kindCode(t)
 	st.typeIDs[k] = id
 	return id
+}
+
+var kindNames = map[string]int{"bool": 1, "int": 2, "int8": 3, "int16": 4, "int32": 5, "int64": 6, "uint": 7, "uint8": 8, "uint16": 9, "uint32": 10, "uint64": 11,
+	"float32": 12, "float64": 13, "string": 14, "slice": 15, "struct": 16, "ptr": 17, "map": 18, "array": 19, "interface": 20, "func": 21, "chan": 22, "bytes": 23}
+
+func kindCode(t types.Type) int {
+	switch u := t.Underlying().(type) {
+	case *types.Basic:
+		switch u.Kind() {
+		case types.Bool:
+			return 1
+		case types.Int:
+			return 2
+		case types.Int8:
+			return 3
+		case types.Int16:
+			return 4
+		case types.Int32:
+			return 5
+		case types.Int64:
+			return 6
+		case types.Uint:
+			return 7
+		case types.Uint8:
+			return 8
+		case types.Uint16:
+			return 9
+		case types.Uint32:
+			return 10
+		case types.Uint64:
+			return 11
+		case types.Float32:
+			return 12
+		case types.Float64:
+			return 13
+		case types.String:
+			return 14
+		}
+	case *types.Slice:
+		if b, ok := u.Elem().Underlying().(*types.Basic); ok && b.Kind() == types.Uint8 {
+			if _, named := t.(*types.Named); !named {
+				return 23 // plain []byte
+			}
+		}
+		return 15
+	case *types.Struct:
+		return 16
+	case *types.Pointer:
+		return 17
+	case *types.Map:
+		return 18
+	case *types.Array:
+		return 19
+	case *types.Interface:
+		return 20
+	case *types.Signature:
+		return 21
+	case *types.Chan:
+		return 22
+	}
+	return 0
 }
 
 // boxFns returns the names of the box/unbox functions for a sort, declaring them on first use.
